@@ -111,6 +111,14 @@ impl<T> Arena<T> {
     }
 }
 
+#[cfg(pubgrub_verif)]
+impl<T> Arena<T> {
+    /// Verification hook: all ids allocated so far, in allocation order.
+    pub(crate) fn verif_ids(&self) -> impl Iterator<Item = Id<T>> {
+        (0..self.data.len() as u32).map(Id::from)
+    }
+}
+
 impl<T> Index<Id<T>> for Arena<T> {
     type Output = T;
     fn index(&self, id: Id<T>) -> &T {
